@@ -168,22 +168,31 @@ func (s *Set) SUnionStore(destination *Set, sets ...*Set) {
 	}
 }
 
-// SScan scans the set members.
+// SScan scans the set members: it visits up to count members (count <= 0: all the remaining ones)
+// starting at position cursor and returns the position to continue from.
 func (s *Set) SScan(cursor int64, match string, count int64) (int64, []string) {
 	keys := make([]string, 0, 32)
-	if cursor >= int64(s.data.Len()) {
-		return 0, nil
+	if cursor < 0 {
+		cursor = 0
 	}
+	var i int64 = 0
+	var visited int64 = 0
 	s.data.Scan(func(member string, _ struct{}) bool {
-		if count > 0 && int64(len(keys)) >= count {
+		if i < cursor {
+			i++
+			return true
+		}
+		if count > 0 && visited >= count {
 			return false
 		}
 		if matched, err := filepath.Match(match, member); matched && err == nil {
 			keys = append(keys, member)
 		}
+		i++
+		visited++
 		return true
 	})
-	return cursor, keys
+	return i, keys
 }
 
 // SRandMember gets a random member from the set.
